@@ -43,8 +43,8 @@ def patched_sources(patch):
             return None, r.stdout + r.stderr
         out = {}
         for rel in files:
-            if rel.endswith('.py') and rel.startswith('chi/') and \
-                    'tests' not in rel:
+            if rel.endswith(('.py', '.xml')) and rel.startswith('chi/') \
+                    and 'tests' not in rel:
                 with open(os.path.join(tmp, rel)) as f:
                     out[rel] = f.read()
         return out, ''
